@@ -38,6 +38,7 @@ import (
 	"github.com/dadrus/heimdall/internal/rules/mechanisms"
 	"github.com/dadrus/heimdall/internal/rules/mechanisms/authenticators"
 	"github.com/dadrus/heimdall/internal/rules/mechanisms/authorizers"
+	"github.com/dadrus/heimdall/internal/rules/mechanisms/contenttype"
 	"github.com/dadrus/heimdall/internal/rules/mechanisms/contextualizers"
 	"github.com/dadrus/heimdall/internal/rules/mechanisms/errorhandlers"
 	"github.com/dadrus/heimdall/internal/rules/mechanisms/finalizers"
@@ -52,6 +53,7 @@ func init() { families["authn"] = c04Run }
 
 type c04Infra struct {
 	jwks, intro, ident, meta *httptest.Server
+	token                    *httptest.Server
 	dead                     string
 	keys                     map[string]*ecdsa.PrivateKey
 	rsaKey                   *rsa.PrivateKey
@@ -66,6 +68,7 @@ type c04Infra struct {
 var (
 	c04Once  sync.Once
 	c04Inf   *c04Infra
+	c04Inf0  *c04Infra // the same, for helpers without access to the receiver
 	c04Error error
 )
 
@@ -325,6 +328,45 @@ func c04Setup() (*c04Infra, error) {
 			rw.Write(raw) //nolint:errcheck
 		}))
 
+		// the authorization server heimdall asks for a token when an endpoint demands oauth2_client_credentials:
+		// /token/<variant> (see gen_authn.CC_ANSWERS)
+		inf.token = httptest.NewServer(http.HandlerFunc(func(rw http.ResponseWriter, req *http.Request) {
+			variant := strings.TrimPrefix(req.URL.Path, "/token/")
+			doc := func(status int, v map[string]any) {
+				raw, _ := json.Marshal(v)
+
+				rw.Header().Set("Content-Type", "application/json")
+				rw.WriteHeader(status)
+				rw.Write(raw) //nolint:errcheck
+			}
+
+			switch {
+			case variant == "ok":
+				doc(http.StatusOK, map[string]any{"access_token": "heimdall-own-token", "token_type": "Bearer", "expires_in": 300})
+			case strings.HasPrefix(variant, "400:"):
+				doc(http.StatusBadRequest, map[string]any{
+					"error": strings.TrimPrefix(variant, "400:"), "error_description": "the request of the client is refused",
+				})
+			case variant == "400text":
+				rw.WriteHeader(http.StatusBadRequest)
+				rw.Write([]byte("<<this is not json>>")) //nolint:errcheck
+			case variant == "200text":
+				rw.Header().Set("Content-Type", "application/json")
+				rw.Write([]byte("<<this is not json>>")) //nolint:errcheck
+			case strings.HasPrefix(variant, "200error:"):
+				doc(http.StatusOK, map[string]any{"error": strings.TrimPrefix(variant, "200error:")})
+			default:
+				status := 0
+				fmt.Sscanf(variant, "%d", &status) //nolint:errcheck
+
+				if status < 200 || status > 599 { //nolint:mnd
+					status = http.StatusInternalServerError
+				}
+
+				rw.WriteHeader(status)
+			}
+		}))
+
 		// an address at which no HTTP server answers
 		ln, err := verifListen("127.0.0.1:0")
 		if err != nil {
@@ -348,6 +390,7 @@ func c04Setup() (*c04Infra, error) {
 		}()
 
 		c04Inf = inf
+		c04Inf0 = inf
 	})
 
 	return c04Inf, c04Error
@@ -388,6 +431,30 @@ func c04Templated(m map[string]any, ep map[string]any, value string) map[string]
 
 	if getBool(m, "htpl") {
 		ep["headers"] = map[string]any{"X-Credential-Ref": "{{ " + value + " }}"}
+	}
+
+	// the endpoint demands that heimdall authenticates itself
+	switch auth := getStr(m, "auth"); {
+	case auth == "":
+	case auth == "api_key":
+		ep["auth"] = map[string]any{"type": "api_key", "config": map[string]any{
+			"in": "header", "name": "X-Heimdall-Key", "value": "k-4711",
+		}}
+	case auth == "basic_auth":
+		ep["auth"] = map[string]any{"type": "basic_auth", "config": map[string]any{"user": "heimdall", "password": "pw"}}
+	case strings.HasPrefix(auth, "cc:"):
+		variant := strings.TrimPrefix(auth, "cc:")
+		tokenURL := c04Inf0.token.URL + "/token/" + variant
+
+		if variant == "dead" {
+			tokenURL = c04Inf0.dead + "/token/ok"
+		}
+
+		ep["auth"] = map[string]any{"type": "oauth2_client_credentials", "config": map[string]any{
+			"token_url": tokenURL, "client_id": "heimdall", "client_secret": "secret", "scopes": []any{"profiles:read"},
+		}}
+	default:
+		ep["auth"] = map[string]any{"type": "unknown-" + auth}
 	}
 
 	return ep
@@ -819,9 +886,16 @@ func c04Request(rq map[string]any, tokens map[string]string) (*http.Request, err
 		req.Host = c04Subst(host, tokens)
 	}
 
+	// Content-Type: one line, several lines, or none at all
 	if hasBody {
-		if ct := getStr(bm, "ct"); ct != "" {
+		switch ct := bm["ct"].(type) {
+		case string:
 			req.Header.Set("Content-Type", ct)
+		case []any:
+			for _, l := range ct {
+				line, _ := l.(string)
+				req.Header.Add("Content-Type", line)
+			}
 		}
 	}
 
@@ -850,7 +924,38 @@ func c04Request(rq map[string]any, tokens map[string]string) (*http.Request, err
 	return req, nil
 }
 
+// c04Decoder: which body decoder contenttype.NewDecoder chooses for each of the given Content-Type values
+func c04Decoder(c map[string]any) (any, error) {
+	out := []any{}
+
+	for _, ct := range getStrs(c, "cts") {
+		dec, err := contenttype.NewDecoder(ct)
+
+		switch {
+		case err != nil:
+			out = append(out, nil)
+		default:
+			switch dec.(type) {
+			case contenttype.JSONDecoder:
+				out = append(out, "json")
+			case contenttype.WWWFormUrlencodedDecoder:
+				out = append(out, "form")
+			case contenttype.YAMLDecoder:
+				out = append(out, "yaml")
+			default:
+				out = append(out, fmt.Sprintf("%T", dec))
+			}
+		}
+	}
+
+	return out, nil
+}
+
 func c04Run(c map[string]any) (any, error) {
+	if getStr(c, "op") == "decoder" {
+		return c04Decoder(c)
+	}
+
 	inf, err := c04Setup()
 	if err != nil {
 		return nil, err
